@@ -386,7 +386,6 @@ func c18(run *core.Run, replay string) {
 	}
 	// parallel inverse BWT workers: one block > 4 MiB, several jobs for that block (hint in the header)
 	pipes = append(pipes, racePipe{Cfg: kz.Cfg{Transform: "BWT", Entropy: "ANS0", BlockSize: 8 << 20, Jobs: 4, Checksum: 32}, Shape: "html", Size: 4<<20 + 200000, DecJ: 6, Listen: true, Verbose: 5})
-	pipes = append(pipes, racePipe{Cfg: kz.Cfg{Transform: "BWT", Entropy: "NONE", BlockSize: 8 << 20, Jobs: 2, Checksum: 0}, Shape: "text", Size: 4<<20 + 100000, DecJ: 3})
 	// blocks whose eighth is an odd number of bytes (the chunks of the parallel inverse BWT then end on odd positions), 8 and 3 workers
 	pipes = append(pipes, racePipe{Cfg: kz.Cfg{Transform: "BWT", Entropy: "NONE", BlockSize: 8 << 20, Jobs: 1, Checksum: 32}, Shape: "text", Size: 4394312, DecJ: 8})
 	pipes = append(pipes, racePipe{Cfg: kz.Cfg{Transform: "BWT", Entropy: "HUFFMAN", BlockSize: 8 << 20, Jobs: 1, Checksum: 0}, Shape: "html", Size: 4394325, DecJ: 3})
